@@ -2,13 +2,12 @@
 {
  "property": ["C18"],
  "entry": "h_register_missing",
- "enforce": ["getopt_register_missing", "getopt_lookup", "getopt_atexit"],
+ "enforce": ["getopt_register_missing"],
  "annotate": ["util/getopt.c"],
  "defines": ["VERIF_HALLOC", "GO_NOPTS_MAX=4", "GO_STRMAX=6", "VERIF_STRMAX=8", "GSPEC_NAMEMAX=8"],
  "models": ["models/libc_string.c", "models/libc_misc.c", "models/getopt_stdio.c"],
  "timeout": 300,
- "assumptions": ["table object <= 4 slots, names <= 6 characters",
-                 "getopt_lookup's precondition is clause 8 of getopt()'s postcondition, with string equality instead of pointer equality (that is what the code asserts); strcmp: models/libc_string.c"]
+ "assumptions": ["table object <= 4 slots, names <= 6 characters", "the slot index is inside the table and the slot is empty: guaranteed by the GETOPT_* macros (distinct __LINE__ values), NOT checked by the code"]
 }
 */
 #include "go_pre.h"
@@ -19,51 +18,18 @@ void
 h_register_missing(void)
 {
 	GO_MK_TABLE();
-	GO_STR(w, wlen);
-	IN(size_t, ln); IN(int, s_reset); IN(int, which); IN(size_t, s_found); IN(int, s_same); IN(size_t, gi);
-	size_t r;
+	IN(size_t, ln); IN(int, s_reset); IN(size_t, gi);
 
+	/* GETOPT_MISSING_ARG on the first pass */
 	optreset = s_reset;
 	g_go_i = gi;
-	if (which == 0) {
-		/* GETOPT_MISSING_ARG on the first pass */
-		getopt_initialized = 0;
-		__CPROVER_assume(ln < t_n && opts[ln].os == NULL);
-		getopt_register_missing(ln);
-		__CPROVER_assert(s_reset == 0 && opt_missing == ln, "register_missing: missing-argument index recorded");
-		VCOVER(ln == GO_NOPTS_MAX - 1 && t_missing == t_n + 1);
-		VCOVER(ln == 0 && t_reg1);
-	} else if (which == 1) {
-		/* GETOPT_SWITCH(ch) after a getopt() step that returned ch != NULL */
-		const char * ch;
-		getopt_initialized = 1;
-		opt_found = s_found;
-		if (s_found < t_n && s_found != t_missing) {
-			__CPROVER_assume(opts[s_found].os != NULL);
-			if (s_same)
-				ch = opts[s_found].os;		/* what getopt() returns */
-			else {
-				__CPROVER_assume(wlen == opts[s_found].olen);	/* an equal string elsewhere */
-				for (size_t k = 0; k < GO_STRMAX; k++)
-					if (k < wlen)
-						__CPROVER_assume(w[k] == opts[s_found].os[k]);
-				ch = w;
-			}
-		} else {
-			__CPROVER_assume(s_found == opt_missing || s_found == opt_default);
-			ch = w;					/* the unknown word itself / anything */
-		}
-		__CPROVER_assume(ch != getopt_dummy);
-		r = getopt_lookup(ch);
-		__CPROVER_assert(s_reset == 0 && r == s_found, "lookup: the index found by the last step");
-		VCOVER(r == t_n + 1);
-		VCOVER(r < t_n && r == t_missing);
-		VCOVER(r == GO_NOPTS_MAX - 1 && r != t_missing && s_same);
-		VCOVER(r == 0 && r != t_missing && !s_same && wlen == GO_STRMAX);
-	} else {
-		/* at exit */
-		getopt_atexit();
-		__CPROVER_assert(opts == NULL, "atexit: table released");
-		VCOVER(t_n == GO_NOPTS_MAX);
-	}
+	getopt_initialized = 0;
+	__CPROVER_assume(ln < t_n && opts[ln].os == NULL);
+
+	getopt_register_missing(ln);
+
+	__CPROVER_assert(s_reset == 0 && opt_missing == ln, "register_missing: missing-argument index recorded");
+	VCOVER(ln == GO_NOPTS_MAX - 1 && t_missing == t_n + 1);
+	VCOVER(ln == 0 && t_reg1);
+	VCOVER(t_missing < t_n && ln != t_missing);	/* a second GETOPT_MISSING_ARG label: the later one wins */
 }
